@@ -24,7 +24,7 @@ RULE = (
     "path. Distinct = SHA-1 (random) / by construction (enumerated)."
 )
 BUDGET = {
-    "quick": {"examples": 400, "shards": 4, "enum_shards": 4},
+    "quick": {"examples": 800, "shards": 4, "enum_shards": 4},
     "thorough": {"fuzz_runs": 3000, "examples": 10000, "shards": 16, "enum_shards": 16},
 }
 EXHAUSTIVE = {
